@@ -268,6 +268,10 @@ def evaluate(rows, model_ok, want, exact_nest_paths=False):
             if not same_report(a, got):
                 out["ctx_model"].append((r, v, k, got, a))
     for r in rows:
+        if r.get("altalloc"):
+            bump("alloc:alternating-values")
+            if not r["altalloc"].startswith("0 "):
+                out["alloc"].append((r, "all valid values of the run validated in turn inside one measured function (Validate and ValidateContext(Background) each)", r["altalloc"] + " allocations per pass"))
         if r.get("nilrecv"):
             o, ex = r["nilrecv"].split("\t", 1)
             exd = parse_extra(ex)
